@@ -6,7 +6,7 @@ MANIFEST = {
             "dead letters + still pending (nothing invented, nothing lost, across failure, restart, suspension, termination, address reuse), "
             "C02_kernel_exactly_once_per_receiver (the same flow equation per serial AND receiver address: a message sent once to t is at any time "
             "exactly one of pending / handled once / dead-lettered once; broadcast copies accounted per child), "
-            "C02_send_total (sending never blocks/crashes), C02_kernel_mailbox_order_step/_run (mailbox discipline from any state: a step only "
+            "C02_handled_in_send_order (Kernel/Order.v: every send takes the next value of the system-wide serial counter; for every role table, run and actor object the serials it shows as handled, in handling order, never decrease — invariant: every mailbox sorted by serial and below the counter, C02_mailboxes_sorted_by_serial; relation \"queues only grow at the tail by messages numbered with current counter values\" through every kernel operation), C02_send_total (sending never blocks/crashes), C02_kernel_mailbox_order_step/_run (mailbox discipline from any state: a step only "
             "takes the head of an actor's in-flight+queued user messages — when that actor runs it — and appends at the tail; over a run "
             "seq' = skipn k seq ++ app, so queued messages keep their order across failure, suspension, restart); kernel tied to the real ActorSystem by lockstep replay with exactly-once / "
             "order monitors. Mailbox level: theorems C02_conservation (pushed = popped ++ queued as lists, for both queues) and C02_no_stranded (when every sender, "
